@@ -33,6 +33,10 @@ type pubSpec struct {
 
 type seqcase struct {
 	Pubs []pubSpec `json:"publishes"`
+	// Swap: after the first publish the two legacy hooks are replaced with
+	// SetBeforePublishHook / SetAfterPublishHook (1 = by other hooks, 2 = removed): from then
+	// on the new ones run once per publish and the old ones never again
+	Swap int `json:"legacy_hooks_replaced_after_first_publish,omitempty"`
 }
 
 func (s seqcase) String() string {
@@ -47,7 +51,13 @@ func (s seqcase) String() string {
 		}
 		p = append(p, t)
 	}
-	return "sequence " + strings.Join(p, " ")
+	sw := ""
+	if s.Swap == 1 {
+		sw = " (legacy hooks replaced after the first publish)"
+	} else if s.Swap == 2 {
+		sw = " (legacy hooks removed after the first publish)"
+	}
+	return "sequence " + strings.Join(p, " ") + sw
 }
 
 type seqInst struct {
@@ -59,13 +69,14 @@ type seqInst struct {
 func (in *seqInst) Body() {
 	evt.Deliver = func(ti, slot, id int, ctx context.Context) {}
 	types := []*evt.TypeOps{bp.Types[0], bp.Types[2]}
-	hook := func(name string) eventbus.PublishHook {
-		return func(t reflect.Type, ev any) { in.rec.Add(name, evOf(ev), 0, t.String()) }
+	hookGen := func(name string, gen int) eventbus.PublishHook {
+		return func(t reflect.Type, ev any) { in.rec.Add(name, evOf(ev), gen, t.String()) }
 	}
+	hook := func(name string) eventbus.PublishHook { return hookGen(name, 1) }
 	hookCtx := func(name string) eventbus.PublishHookContext {
 		return func(ctx context.Context, t reflect.Type, ev any) {
 			v, _ := ctx.Value(ctxKey{}).(string)
-			in.rec.Add(name, evOf(ev), 0, t.String()+"|"+v)
+			in.rec.Add(name, evOf(ev), 1, t.String()+"|"+v)
 		}
 	}
 	bus := eventbus.New(eventbus.WithBeforePublish(hook("before")), eventbus.WithBeforePublishContext(hookCtx("beforeCtx")),
@@ -94,6 +105,14 @@ func (in *seqInst) Body() {
 			types[p.Ty].PubAny(bus, ctx, i+1)
 		} else {
 			types[p.Ty].PubCtx(bus, ctx, i+1)
+		}
+		if i == 0 && in.s.Swap == 1 {
+			bus.SetBeforePublishHook(hookGen("before", 2))
+			bus.SetAfterPublishHook(hookGen("after", 2))
+		}
+		if i == 0 && in.s.Swap == 2 {
+			bus.SetBeforePublishHook(nil)
+			bus.SetAfterPublishHook(nil)
 		}
 	}
 	vrt.Join()
@@ -127,11 +146,23 @@ func (in *seqInst) Check(res *vrt.Result) []vrt.Violation {
 		}
 		for _, name := range []string{"before", "beforeCtx", "after", "afterCtx"} {
 			n := 0
+			legacy := !strings.HasSuffix(name, "Ctx")
+			wantGen, wantN := 1, 1
+			if legacy && i > 0 && in.s.Swap == 1 {
+				wantGen = 2
+			}
+			if legacy && i > 0 && in.s.Swap == 2 {
+				wantN = 0
+			}
 			for _, e := range evs {
 				if e.K != name || e.A != id {
 					continue
 				}
 				n++
+				if e.B != wantGen {
+					bad("hook-replaced", fmt.Sprintf("a %s hook that had been replaced with the setter ran for a later publish", name))
+					continue
+				}
 				want := types[p.Ty].RT.String()
 				if strings.HasSuffix(name, "Ctx") {
 					want += "|" + val
@@ -140,8 +171,8 @@ func (in *seqInst) Check(res *vrt.Result) []vrt.Violation {
 					bad("hook-args", fmt.Sprintf("%s hook of %s got %q, want the event's own reflect.Type and (context hooks) its publish context's value", name, how, maskVal(e.S)))
 				}
 			}
-			if n != 1 {
-				bad("hook-count", fmt.Sprintf("%s hook ran %d times for %s", name, n, how))
+			if n != wantN {
+				bad("hook-count", fmt.Sprintf("%s hook ran %d times for %s (want %d)", name, n, how, wantN))
 			}
 		}
 		for ti := range types {
@@ -198,7 +229,7 @@ func seqcases(thorough bool) []seqcase {
 	var rec func(cur []pubSpec)
 	rec = func(cur []pubSpec) {
 		if len(cur) >= 2 {
-			l = append(l, seqcase{append([]pubSpec{}, cur...)})
+			l = append(l, seqcase{Pubs: append([]pubSpec{}, cur...)})
 		}
 		if len(cur) == n {
 			return
@@ -212,6 +243,13 @@ func seqcases(thorough bool) []seqcase {
 		}
 	}
 	rec(nil)
+	// the legacy hooks replaced / removed between publishes (typed publishes, live contexts)
+	for _, sw := range []int{1, 2} {
+		for _, t2 := range []int{0, 1} {
+			l = append(l, seqcase{Pubs: []pubSpec{{Ty: 0}, {Ty: t2}, {Ty: 0}}, Swap: sw})
+			l = append(l, seqcase{Pubs: []pubSpec{{Ty: 0, Cancelled: true}, {Ty: t2}}, Swap: sw})
+		}
+	}
 	return l
 }
 
